@@ -7,8 +7,10 @@ bind : S->C. Every exported (current, desired) pair: the current state is create
        -> PlanChanges and the statements are executed; an independent pragma-based projection of the database must equal the desired
        state (NotConverged), no statement may fail (PlanOrExecError) and the diff computed right afterwards must be empty
        (SecondPlanNotEmpty). TLC evaluates these formulas on every observation.
+       MySQL / PostgreSQL (no engine): ColCatalog.tla / ColCatalogTrace.tla - for every ordered pair of 24 definitions of one column the
+       differ's changes are planned and the column clauses of the statements, interpreted by the model, must end in the desired columns.
 """
-from checks import engine
+from checks import engine, plancat
 import vf
 
 NAMES = {"PlanOrExecError", "NotConverged", "SecondPlanNotEmpty"}
@@ -36,6 +38,9 @@ def run(tier):
              "explanation": "states = (current, desired) pairs exported by TLC from SqliteModel.tla (single edits to/from 4 seed catalogues covering autoincrement, "
                             "composite / reordered keys, WITHOUT ROWID, STRICT, generated columns, partial / descending / unique indexes, named / unnamed checks, "
                             "self / cross foreign keys with all five actions); each executed on a real SQLite file"}
+    # MySQL / PostgreSQL, catalogue level (no engine): a column modified in place; differ -> planner -> the column clauses interpreted by
+    # ColCatalog.tla must arrive at the desired columns
+    v.cov["catalog_column_level"] = plancat.colmod(v, "colmod-up", "catalog-colmod")
     v.samples = engine.sample(full)
     v.assumptions = ["the harness's DDL renderer and pragma projection are correct (every start state is re-projected and compared with the model state before use)",
                      "literal defaults, column index parts, one foreign key per table; TEXT -> INT type changes and NOT NULL additions without default are outside the domain (the engine itself refuses the data)"]
